@@ -44,12 +44,12 @@ TABLE = {
     "C15b": ("C15", "/tmp/seed-C15/b", "mirror checkpoint published before it is recorded: needs a failing lock Replace at commit", ["C15"]),
     "C16a": ("C16", "/tmp/seed-C16/a", "whole-tree fast path skips the hash comparison: needs [0,size) with a wrong hash and an empty proof", ["C16"]),
     "C16b": ("C16", "/tmp/seed-C16/b", "empty-proof fast path skips the range binding: needs a proper subrange with the checkpoint root as hash and no proof", ["C16"]),
-    "C18a": ("C18", "/tmp/seed-C18/a", "", ["C18"]),
-    "C18b": ("C18", "/tmp/seed-C18/b", "", ["C18"]),
-    "C19a": ("C19", "/tmp/seed-C19/a", "", ["C19"]),
-    "C19b": ("C19", "/tmp/seed-C19/b", "", ["C19"]),
-    "C20a": ("C20", "/tmp/seed-C20/a", "", ["C20"]),
-    "C20b": ("C20", "/tmp/seed-C20/b", "", ["C20"]),
+    "C18a": ("C18", "/tmp/seed-C18/a", "right-edge guard off by one (>= to >): needs storage ahead of the published checkpoint (crashed/unpublished next tree that crossed a tile boundary) so that the full sibling of the published right-edge partial exists", ["C18"]),
+    "C18b": ("C18", "/tmp/seed-C18/b", "overrideImmutable stats the partial instead of the full tile: needs an empty or directory-typed NNN entry next to NNN.p (leftover of an interrupted upload)", ["C18"]),
+    "C19a": ("C19", "/tmp/seed-C19/a", "file servers built on os.DirFS instead of the os.Root: needs a symbolic link inside a served directory whose target lies outside it", ["C19"]),
+    "C19b": ("C19", "/tmp/seed-C19/b", "partial names tiles lose their content type: needs a request for tile/names/N.p/W of a log whose size is not a multiple of 256", ["C19"]),
+    "C20a": ("C20", "/tmp/seed-C20/a", "final-tree mismatch errors wrap the read-only sentinel, the handler classifies them as success: needs a log past its read-only date whose checkpoint differs from final_tree_head", ["C20"]),
+    "C20b": ("C20", "/tmp/seed-C20/b", "mirror right-edge read skipped when the edge is a single hash: needs a mirror checkpoint at a power-of-two size with missing or corrupted tiles", ["C20"]),
 }
 
 
